@@ -434,6 +434,22 @@ func tBitop(op string, a, b *Term) (*Term, error) {
 		}
 		return wrap(mkZConst(r), w, s), nil
 	}
+	if a.isConst() && !b.isConst() && (op == "&" || op == "|" || op == "^") {
+		a, b = b, a // commutative: keep the constant on the right
+	}
+	if b.isConst() && bounded(a) && a.lo.Sign() >= 0 && b.k.Sign() >= 0 {
+		and := andConst(a, b.k, w, s)
+		switch op {
+		case "&":
+			return and, nil
+		case "|": // x | k = x + k - (x & k)
+			return wrap(rawSub(rawAdd(a, mkZConst(b.k)), and), w, s), nil
+		case "^": // x ^ k = x + k - 2(x & k)
+			return wrap(rawSub(rawAdd(a, mkZConst(b.k)), rawMul(mkZConst(big.NewInt(2)), and)), w, s), nil
+		case "&^": // x &^ k = x - (x & k)
+			return wrap(rawSub(a, and), w, s), nil
+		}
+	}
 	if b.isConst() {
 		switch op {
 		case "&":
@@ -674,4 +690,42 @@ func hashTerm(t *Term) [16]byte {
 	}
 	t.h, t.hok = r, true
 	return r
+}
+
+// andConst builds x & k for a non-negative x and a non-negative constant k as a linear term: for every
+// maximal run of set bits p..q of k the contribution is ((x div 2^p) mod 2^(q-p+1)) * 2^p.
+func andConst(x *Term, k *big.Int, w int, s bool) *Term {
+	var sum *Term = mkZConst(big0)
+	n := k.BitLen()
+	for p := 0; p < n; {
+		if k.Bit(p) == 0 {
+			p++
+			continue
+		}
+		q := p
+		for q+1 < n && k.Bit(q+1) == 1 {
+			q++
+		}
+		lowP := pow2(p)
+		if x.hi.Cmp(lowP) < 0 {
+			break // x has no bits at or above p
+		}
+		var part *Term = x
+		if p > 0 {
+			part = node("div", SZ, 0, false, x, mkZConst(lowP))
+			part.lo, part.hi = big0, new(big.Int).Rsh(x.hi, uint(p))
+		}
+		runLen := pow2(q - p + 1)
+		if part.hi.Cmp(runLen) >= 0 {
+			m := node("mod", SZ, 0, false, part, mkZConst(runLen))
+			m.lo, m.hi = big0, new(big.Int).Sub(runLen, big1)
+			part = m
+		}
+		if p > 0 {
+			part = rawMul(part, mkZConst(lowP))
+		}
+		sum = rawAdd(sum, part)
+		p = q + 1
+	}
+	return wrap(sum, w, s)
 }
